@@ -474,9 +474,23 @@ impl ElfLinker {
                         "Could not load R_MIPS_REL32 at 0x{:x}",
                         dynrel.r_offset + elf.base_address()
                     ))?;
+                // A + S: an entry that names a symbol with a GOT entry takes the address from
+                // that (already relocated) GOT entry; all other entries are relative to the
+                // base address of this Elf
+                let r_sym = dynrel.r_sym as u64;
+                let addend = if r_sym >= gotsym && r_sym < symtabno {
+                    let got_address =
+                        pltgot + elf.base_address() + ((local_gotno + (r_sym - gotsym)) * 4);
+                    self.memory.get32(got_address).ok_or(format!(
+                        "Could not load GOT entry at 0x{:x} for R_MIPS_REL32",
+                        got_address
+                    ))?
+                } else {
+                    elf.base_address() as u32
+                };
                 self.memory.set32(
                     dynrel.r_offset + elf.base_address(),
-                    value + (elf.base_address() as u32),
+                    value.wrapping_add(addend),
                 )?;
             }
         }
